@@ -1,0 +1,41 @@
+//go:build verif
+// +build verif
+
+// Verification hooks (build tag verif only): thin exports of the unexported VRF
+// building blocks so that an external harness can act as an adversarial prover.
+// No behaviour is added or changed.
+
+package ed25519
+
+import "com.tuntun.rangers/node/src/common/ed25519/edwards25519"
+
+// VerifHashToCurve is hashToCurve (Elligator2 + cofactor clearing).
+func VerifHashToCurve(m []byte, pk PublicKey) [32]byte { return hashToCurve(m, pk) }
+
+// VerifExpandSecret is expandSecret: secret scalar x and the truncated hash used for the nonce.
+func VerifExpandSecret(sk PrivateKey) (x *[32]byte, truncatedHashedSK *[32]byte) {
+	return expandSecret(sk)
+}
+
+// VerifHashPoints is hashPoints (the 16-byte challenge).
+func VerifHashPoints(p1, p2, p3, p4 edwards25519.ExtendedGroupElement) [16]byte {
+	return hashPoints(p1, p2, p3, p4)
+}
+
+// VerifNonceGeneration is vrfNonceGeneration.
+func VerifNonceGeneration(truncatedHashedSK [32]byte, h [32]byte) *[32]byte {
+	return vrfNonceGeneration(truncatedHashedSK, h)
+}
+
+// VerifStringToPoint is stringToPoint (canonical point decoding used for Gamma).
+func VerifStringToPoint(point *edwards25519.ExtendedGroupElement, s [32]byte) bool {
+	return stringToPoint(point, s)
+}
+
+// VerifDecodeProof is decodeProof.
+func VerifDecodeProof(pi []byte) (gamma *edwards25519.ExtendedGroupElement, c *[N2]byte, s *[N2 * 2]byte, err error) {
+	return decodeProof(pi)
+}
+
+// VerifTryZeroPadding is tryZeroPadding.
+func VerifTryZeroPadding(pi VRFProve) VRFProve { return tryZeroPadding(pi) }
